@@ -231,15 +231,15 @@ func runC02(c *Ctx) {
 							if pp, ok := stripConv(a).(*ssa.Parameter); ok && allVal != nil && pp.Parent() == f {
 								v = allVal
 							}
-							if isConstBool(v, api.all) && (callee.Name() == "init" || callee.Name() == "asyncRead" || callee.Name() == "asyncWrite") {
+							if isConstBool(v, api.all) && (pinName(callee) == "init" || pinName(callee) == "asyncRead" || pinName(callee) == "asyncWrite") {
 								flagOK = true
 							}
-							if depth == 0 && (callee.Name() == "asyncRead" || callee.Name() == "asyncWrite") {
+							if depth == 0 && (pinName(callee) == "asyncRead" || pinName(callee) == "asyncWrite") {
 								visit(callee, v, depth+1)
 							}
 						}
 						if b, ok := prm.Type().Underlying().(*types.Basic); ok && b.Kind() == types.Int {
-							if callee.Name() == "asyncReadNow" || callee.Name() == "asyncWriteNow" || callee.Name() == "scheduleRead" || callee.Name() == "scheduleWrite" {
+							if pinName(callee) == "asyncReadNow" || pinName(callee) == "asyncWriteNow" || pinName(callee) == "scheduleRead" || pinName(callee) == "scheduleWrite" {
 								if !isConstInt(a, 0) {
 									zeroOK = false
 								}
@@ -419,7 +419,7 @@ func runC02(c *Ctx) {
 				if !ok {
 					continue
 				}
-				if callee := call.Common().StaticCallee(); callee != nil && (callee.Name() == "scheduleRead" || callee.Name() == "scheduleWrite") {
+				if callee := call.Common().StaticCallee(); callee != nil && (pinName(callee) == "scheduleRead" || pinName(callee) == "scheduleWrite") {
 					sched = true
 				}
 				if isDynamicFuncCall(call) {
